@@ -264,10 +264,22 @@ func c16GenHistory(g *Gen, producer bool) {
 		limit = r.Range(1, 3)
 		maxresp = 0 // producers and max_response_bytes are C19's subject
 	}
-	lines := []string{fmt.Sprintf("cfg cache=%d maxresp=%d limit=%d", b2i(cache), maxresp, limit)}
-	kind := "ex"
+	// every registered stream kind: static methods (registered with or without a header type) and
+	// the dynamic method in both flavours, each with or without a header value
+	dynamic := r.Chance(42)
+	hdrCfg := r.Chance(40)
+	lines := []string{fmt.Sprintf("cfg cache=%d maxresp=%d limit=%d hdr=%d", b2i(cache), maxresp, limit, b2i(hdrCfg))}
+	kind, initKind := "ex", "ex"
 	if producer {
-		kind = "pr"
+		kind, initKind = "pr", "pr"
+	}
+	if dynamic {
+		kind = "dyn"
+		initKind = map[bool]string{false: "dx", true: "dp"}[producer]
+	}
+	hword := ""
+	if r.Chance(45) {
+		hword = fmt.Sprintf(" h%d", r.Range(1, 99))
 	}
 	cancelAct := Pick(r, []string{"absent", "ok", "ok", "err", "panic"})
 	collide := r.Chance(35)
@@ -299,7 +311,7 @@ func c16GenHistory(g *Gen, producer bool) {
 	var toks []shadowTok
 	calls := 0
 	doInit := func(prog string, ticks [][]scriptAct) {
-		lines = append(lines, fmt.Sprintf("init 0 %s %s %s", kind, cancelAct, prog))
+		lines = append(lines, fmt.Sprintf("init 0 %s %s %s%s", initKind, cancelAct, prog, hword))
 		if !producer {
 			toks = append(toks, shadowTok{0, calls, ticks})
 			calls++
@@ -393,7 +405,7 @@ func c16GenHistory(g *Gen, producer bool) {
 		}
 		route := kind
 		if r.Chance(4) { // the cursor presented on the other method's continuation route: refused
-			route = map[string]string{"ex": "pr", "pr": "ex"}[kind]
+			route = Pick(r, map[string][]string{"ex": {"pr", "dyn"}, "pr": {"ex", "dyn"}, "dyn": {"ex", "pr"}}[kind])
 			presented = false
 		}
 		lines = append(lines, fmt.Sprintf("x 0 %s %s %s %s", route, schema, genVals(r, 3), strings.Join(meta, " ")))
@@ -402,6 +414,18 @@ func c16GenHistory(g *Gen, producer bool) {
 				toks = append(toks, shadowTok{np, toks[cur].call, toks[cur].prog})
 			}
 		}
+	}
+	if len(toks) > 0 && r.Chance(40) {
+		// cancel at whatever point the history reached (newest or any earlier cursor)
+		i := len(toks) - 1
+		if r.Chance(30) {
+			i = r.Intn(len(toks))
+		}
+		meta := genUserMeta(r, 2)
+		meta = shuffleInsert(r, meta, hx(fwKeyState)+"="+fmt.Sprintf("T%d", i))
+		meta = shuffleInsert(r, meta, hx(fwKeyCall)+"="+fmt.Sprintf("C%d", toks[i].call))
+		meta = shuffleInsert(r, meta, hx(fwKeyCancel)+"=x"+hx(Pick(r, []string{"1", "", "true"})))
+		lines = append(lines, fmt.Sprintf("x 0 %s %s c %s", kind, Pick(r, []string{"empty", "ok"}), strings.Join(meta, " ")))
 	}
 	g.Case(lines...)
 }
@@ -441,11 +465,13 @@ func c16GenExhaustive(g *Gen) {
 			tick = strings.Join(acts, ";")
 		}
 		std := hx(fwKeyState) + "=T0 " + hx(fwKeyCall) + "=C0 " + hx("k") + "=x" + hx("v")
-		g.Case("cfg cache=1 maxresp=0 limit=0",
-			"init 0 ex ok "+tick,
-			"x 0 ex ok c1.2 "+std,
-			"x 0 ex ok c5 "+hx(fwKeyState)+"=T1 "+hx(fwKeyCall)+"=C0",
-			"x 0 ex empty c "+hx(fwKeyCancel)+"=x31 "+hx(fwKeyState)+"=T0")
+		for _, k := range [][2]string{{"ex", "ex"}, {"dx", "dyn"}} {
+			g.Case("cfg cache=1 maxresp=0 limit=0 hdr="+fmt.Sprint(len(acts)%2),
+				"init 0 "+k[0]+" ok "+tick+" h7",
+				"x 0 "+k[1]+" ok c1.2 "+std,
+				"x 0 "+k[1]+" ok c5 "+hx(fwKeyState)+"=T1 "+hx(fwKeyCall)+"=C0",
+				"x 0 "+k[1]+" empty c "+hx(fwKeyCancel)+"=x31 "+hx(fwKeyState)+"=T0")
+		}
 	}
 	rec = func(prefix []string, depth int) {
 		emitCase(prefix)
